@@ -1831,3 +1831,79 @@ class C17(Prop):
                             return out
             k += 2
         return out
+
+
+# ------------------------------------------------------------------------------------------ C14
+@register
+class C14(Prop):
+    pid = "C14"
+    rule = ("unit impulse at a random input frame n through all seven real resampler types (real sinc kernels, all windows, "
+            "interpolation types, polynomial degrees, FFT rate pairs), constant ratio, random chunk sizes; the energy centroid "
+            "of the dumped output stream must be n*ratio + output_delay() within max(1, ratio) + 1 output frames. "
+            "distinct = (type, config, n mod 8)")
+    assumptions = COMMON_ASSUME + ["that zero-padded FFT multiplication is a linear convolution is assumed about realfft and measured here",
+                                   "the sinc types report L/2*ratio instead of the true ratio*(1-1/f)-1 (finding D1)"]
+    n_quick = 100
+    n_thorough = 1500
+
+    def scenarios(self, rng):
+        hs = []
+        for i in range(self.n):
+            cfg = gen.gen_cfg(rng, ty=rng.choice(["f64", "f64", "f32"]), nch=1, max_chunk=512, probe=False,
+                              sinc_lens=[16, 32, 64, 128, 256])
+            if cfg.kind in ("sincin", "sincout"):
+                cfg.line = cfg.line.rsplit(" ", 1)[0] + " auto"
+            if cfg.kind in gen.ASYNC:
+                ratio = cfg.ratio
+                L = cfg.L
+                n = rng.randint(3 * L + 10, 3 * L + 600)
+                per_in = cfg.chunk if cfg.kind.endswith("in") else max(1, cfg.chunk / ratio)
+                need_in = n + 4 * L + 50 + int(10 / ratio)
+            else:
+                ratio = cfg.ro / cfg.ri
+                n = rng.randint(50, 3000)
+                g = math.gcd(cfg.ri, cfg.ro)
+                fi, fo = fft_sizes(cfg.ri, cfg.ro, cfg.chunk // (1 if cfg.kind == "fftio" else cfg.sub), cfg.kind == "fftout")
+                per_in = max(1, cfg.chunk if cfg.kind != "fftout" else cfg.chunk / ratio)
+                need_in = n + 3 * fi + 100
+            ncalls = int(need_in / per_in) + 3
+            if ncalls > 6000:
+                continue
+            ops = [cfg.new(0)] + [f"0 proc - n m k{n} dump"] * ncalls
+            hs.append(History(ops, {"cfg": cfg.line, "kind": cfg.kind, "ty": cfg.ty, "feats": ["impulse"], "n": n,
+                                    "ratio": ratio}))
+        return hs
+
+    def distinct_key(self, h):
+        return (h.meta["cfg"], h.meta["n"] % 8)
+
+    def oracle(self, h):
+        out = []
+        st = streams(h)
+        y = st.get("0")
+        if not y or not y[0]:
+            return out
+        y = y[0]
+        info = None
+        delay = None
+        for k, slot, name, t, fr, fm, inf, gb in walk(h):
+            info = inf
+            if fr and fr["g"]:
+                delay = fr["g"][4]
+            if fr and fr["status"] in ("panic", "abort"):
+                return out
+        e = sum(v * v for v in y)
+        if e <= 0 or delay is None:
+            return out
+        cen = sum(j * v * v for j, v in enumerate(y)) / e
+        n, ratio = h.meta["n"], h.meta["ratio"]
+        want = n * ratio + delay
+        tol = max(1.0, ratio) + 1.0
+        h.meta["centroid"] = cen
+        if abs(cen - want) > tol:
+            v = viol("C14", h, len(h.ops) - 1, info, "delay-misreported",
+                     {"event_frame": n, "ratio": ratio, "output_delay": delay, "expected_centre": want,
+                      "measured_centre": cen, "tolerance": tol})
+            v["ops"] = h.ops[:3] + ["… (%d identical calls)" % (len(h.ops) - 1)]
+            out.append(v)
+        return out
